@@ -5,6 +5,7 @@ import sys
 import time
 
 VERIF = os.path.dirname(os.path.dirname(os.path.abspath(__file__)))
+OUT = os.environ.get('NOPSA_OUT') or VERIF
 
 
 class Check:
@@ -82,7 +83,7 @@ class Check:
                 known_hit.append((k, ob))
             else:
                 violations.append(ob)
-        outdir = os.path.join(VERIF, 'out', self.prop)
+        outdir = os.path.join(OUT, 'out', self.prop)
         os.makedirs(outdir, exist_ok=True)
         lines = []
         seen_known = set()
@@ -140,8 +141,8 @@ class Check:
             'violations': len(violations),
         }
         ev['coverage'].update(self.extra)
-        os.makedirs(os.path.join(VERIF, 'evidence'), exist_ok=True)
-        with open(os.path.join(VERIF, 'evidence', self.prop + '.json'), 'w') as f:
+        os.makedirs(os.path.join(OUT, 'evidence'), exist_ok=True)
+        with open(os.path.join(OUT, 'evidence', self.prop + '.json'), 'w') as f:
             json.dump(ev, f, indent=1)
         print('%s tier=%s obligations=%d discharged=%d violations=%d known=%d broken=%d wall=%.1fs' %
               (self.prop, self.tier, n_ob, n_ok, len(violations), len(seen_known), len(self.broken), wall))
